@@ -160,6 +160,10 @@ pub struct Finding {
     /// other properties whose generators also honour this finding's `excludes`
     #[serde(default)]
     pub shared_with: Vec<String>,
+    /// signatures that are also tolerated in the `shared_with` properties (e.g. "process-crash"
+    /// for an optimizer blow-up that any generated query can hit)
+    #[serde(default)]
+    pub shared_signatures: Vec<String>,
 }
 
 #[derive(Clone, Debug, Default)]
@@ -182,6 +186,14 @@ impl Known {
         self.findings
             .iter()
             .filter(move |f| f.status == "open" && f.property == prop)
+    }
+}
+
+/// A listed signature matches exactly, or as a prefix when it ends with `*`.
+pub fn sig_matches(listed: &str, sig: &str) -> bool {
+    match listed.strip_suffix('*') {
+        Some(prefix) => sig.starts_with(prefix),
+        None => listed == sig,
     }
 }
 
@@ -254,6 +266,7 @@ impl Ctx {
                     ablate_rules: vec![],
                     commit: None,
                     shared_with: vec![],
+                    shared_signatures: vec![],
                 }],
             },
             strict,
@@ -265,9 +278,11 @@ impl Ctx {
         if self.strict || std::env::var("RLV_IGNORE_KNOWN").is_ok() {
             return None;
         }
-        self.known
-            .open_for(&self.prop)
-            .find(|f| f.signatures.iter().any(|s| s == sig))
+        self.known.findings.iter().find(|f| {
+            f.status == "open"
+                && ((f.property == self.prop && f.signatures.iter().any(|s| sig_matches(s, sig)))
+                    || (f.shared_with.iter().any(|p| *p == self.prop) && f.shared_signatures.iter().any(|s| sig_matches(s, sig))))
+        })
     }
     pub fn ablate_rules(&self) -> Vec<String> {
         let mut v = vec![];
@@ -990,6 +1005,13 @@ pub fn parent_main(def: &PropDef, ctx: &Ctx, cfg: &ParentCfg) -> Outcome {
     let mut inconclusive: Option<String> = None;
     if violation.is_none() {
         for (pn, idx, why) in &crashed {
+            if let Some(k) = ctx.known_sig("process-crash") {
+                // a listed finding that kills the process (e.g. the optimizer allocating without
+                // bound): counted, the case is kept for diagnosis, not a new violation
+                *merged.known_hits.entry(k.id.clone()).or_default() += 1;
+                merged.timeouts.push(format!("{}#{} process died ({why}); attributed to {}", def.parts[*pn as usize].name(), idx, k.id));
+                continue;
+            }
             let part = &def.parts[*pn as usize];
             let case = part.generate(ctx, *idx);
             let v = Violation {
